@@ -56,6 +56,7 @@ def required_cells(tier):
             "idempotence:pttempo": 1, "idempotence:gibbs": 1,
             "fault:tempo_td": 1, "fault:tempo_corr": 1, "fault:pttempo_corr": 1,
             "fault:meanfield": 1, "fault:gibbs_j": 1,
+            "fault:tempo_stream": 1,
             "faults_injected": 60,
             "decreasing-target": 3, "repeated-target": 3,
             "edge:tempo": 2, "edge:meanfield": 1, "edge_hair_targets": 40}
@@ -86,7 +87,7 @@ def cases(tier, seed):
         out.append({"kind": "edge", "seed": seed, "idx": i, "tier": tier})
     nf = 2 if tier == "quick" else 8
     for fc in ("tempo_td", "tempo_corr", "pttempo_corr", "meanfield",
-               "gibbs_j"):
+               "gibbs_j", "tempo_stream"):
         for i in range(nf):
             out.append({"kind": "fault", "cfg": fc, "seed": seed, "idx": i,
                         "tier": tier})
@@ -496,6 +497,46 @@ def run_fault(case):
                         np.array(dyn.states).reshape(len(dyn.times), -1))
             return (lambda: t.compute(end, progress_type=PROG[0]), snap,
                     probe)
+        if cfg == "tempo_stream":
+            # not a user callable but the output stream fails once while the
+            # 'simple' progress report is written (closed pipe); the same
+            # contract: the repeated compute() gives the full dynamics
+            class StreamProbe:
+                def __init__(self):
+                    self.count, self.fail_at, self.n_raised = 0, None, 0
+
+                def write(self, text):
+                    self.count += 1
+                    if self.fail_at is not None and \
+                            self.count == self.fail_at:
+                        self.n_raised += 1
+                        raise BrokenPipeError("injected fault: stream")
+                    return len(text)
+
+                def flush(self):
+                    pass
+            sp = StreamProbe()
+            sysd = scen.random_system(rng, 2, "td")
+            params = lib.tempo_params(dt, 1e-8, [None, 2][i % 2], None)
+            p = dict(alpha=0.2, zeta=1.0, cutoff=3.0,
+                     cutoff_type="gaussian", temperature=0.6)
+            t = oqupy.Tempo(sysd["oq"], oqupy.Bath(
+                np.diag([0.5, -0.5]).astype(complex), gen.make_power_law(p)),
+                params, gen.rand_state(rng, 2), start)
+
+            def snap():
+                dyn = t.get_dynamics()
+                st = np.array(dyn.states)
+                if len(st) != len(dyn.times):
+                    raise Misaligned(f"{len(dyn.times)} times but "
+                                     f"{len(st)} states")
+                return (np.array(dyn.times), st.reshape(len(dyn.times), -1))
+
+            def comp():
+                import contextlib
+                with contextlib.redirect_stdout(sp):
+                    return t.compute(end, progress_type="simple")
+            return comp, snap, sp
         if cfg == "gibbs_j":
             # the imaginary-time computation with a failing spectral-density
             # callable (same contract: a repeated compute() gives the same
